@@ -49,17 +49,20 @@ func check(t interface{ Fatalf(string, ...interface{}) }, name string, p *lp.Pro
 	b, _ := json.Marshal(p)
 	rec.Case(b, nontrivial(p), lp.Classify(p).Labels()...)
 	rec.Sample(json.RawMessage(b))
-	if is := lp.CheckCBOR(p, "full"); len(is) > 0 {
+	mode := "full"
+	if p.Set.ErrMarshal != "" || p.Set.StackMarshal != "" && p.Set.StackMarshal != "string" {
+		// what a custom error/stack marshal function returns is the caller's; the event must still be
+		// one well-formed item: an indefinite map of text keys and complete values
+		mode = "valid"
+	}
+	if is := lp.CheckCBOR(p, mode); len(is) > 0 {
 		fail(t, name, p, is[0].String())
 	}
 }
 
-func norm(p *lp.Program) {
-	p.Set.ErrMarshal = ""
-	if p.Set.StackMarshal != "" && p.Set.StackMarshal != "string" {
-		p.Set.StackMarshal = ""
-	}
-}
+// norm: the error/stack marshal functions are part of the generator's settings (C01's quantifier) and
+// stay in; programs that set them are judged for well-formedness only (see check).
+func norm(p *lp.Program) {}
 
 func TestRapidPrograms(t *testing.T) {
 	rapid.Check(t, func(rt *rapid.T) {
